@@ -378,7 +378,7 @@ def orth_stab(d, r, n, seed, fam, prof, s, kmode):
     if not gen.finite(Z):
         return FAIL('non-finite cores')
     mx = [float(np.abs(G).max()) for G in Z]
-    if max(mx) > 2.0:
+    if not all(x <= 2.0 for x in mx):
         return FAIL(f'entries up to {max(mx):.3e}')
     if not (1.0 <= mx[k] < 2.0):
         return FAIL(f'pivot max-modulus {mx[k]!r} not in [1, 2)')
@@ -386,7 +386,7 @@ def orth_stab(d, r, n, seed, fam, prof, s, kmode):
         if j == k:
             continue
         M = np.einsum('amb,amc->bc', G, G) if j < k else np.einsum('amb,cmb->ac', G, G)
-        if np.abs(M - np.eye(M.shape[0])).max() > 64 * EPS * max(G.shape[0] * G.shape[1], G.shape[1] * G.shape[2]):
+        if not np.abs(M - np.eye(M.shape[0])).max() <= 64 * EPS * max(G.shape[0] * G.shape[1], G.shape[1] * G.shape[2]):
             return FAIL(f'core {j} not orthonormal')
     N, E = exact_dot(Y, Y)
     Mk, ek = to_int(Z[k])
@@ -566,7 +566,7 @@ def truncate_stab(d, r, n, seed, fam, prof, s, e, inflate):
         return FAIL('internal: negative exact squared distance')
     rel2 = bigratio(S, ES, N11, E11)
     floor2 = (1e-9 if d <= 500 else 1e-8) ** 2
-    if rel2 > e * e * (1 + 1e-6) + floor2:
+    if not rel2 <= e * e * (1 + 1e-6) + floor2:
         return FAIL(f'exact relative distance {math.sqrt(rel2):.6e} > e = {e} (ranks {max(rin)} -> {max(rk)})')
     return PASS if rk != rin else TRIVIAL('nothing truncated')
 
@@ -581,17 +581,29 @@ def stab_vs_plain(d, r, n, seed, fam, prof, s, e):
     Y, ex = make(d, r, n, seed, fam, prof, s)
     Y2, _ = make(d, r, n, seed + 5, fam, prof, s)
     plain = teneva.mul_scalar(Y, Y2)
-    if not np.isfinite(plain) or plain == 0 or abs(plain) < 1e-250 or abs(plain) > 1e250:
+    N, E = exact_dot(Y, Y2)
+    if not np.isfinite(plain):
+        # a non-finite plain value is only outside the quantifier if the exact value is not representable either
+        lg = math.log2(abs(me(N)[0])) + me(N)[1] + E if N else None
+        if lg is not None and abs(lg) < 830:          # 1e-250 < |exact| < 1e250
+            return FAIL(f'mul_scalar: plain value {plain!r} although the exact value is about 2^{lg:.1f}')
+        return SKIP('plain scalar product not (safely) representable')
+    if plain == 0 or abs(plain) < 1e-250 or abs(plain) > 1e250:
         return SKIP('plain scalar product not (safely) representable')
     v, p = teneva.mul_scalar(Y, Y2, use_stab=True)
-    N, E = exact_dot(Y, Y2)
     B, EB = exact_dot(Y, Y2, absval=True)
     cond = abs(bigratio(B, EB, N, E)) if N else float('inf')
     sp = math.ldexp(v, int(p))
     if not (abs(sp - plain) <= 512 * d * EPS * abs(plain) or abs(sp - plain) <= 128.0 * d * (r * r + 4) * EPS * cond * abs(plain)):
         return FAIL(f'mul_scalar: stab {sp!r} vs plain {plain!r}')
     pn = teneva.norm(Y)
-    if not np.isfinite(pn) or pn < 1e-140 or pn > 1e140:
+    if not np.isfinite(pn):
+        NN, EN = exact_dot(Y, Y)
+        lg = 0.5 * (math.log2(me(NN)[0]) + me(NN)[1] + EN) if NN else None
+        if lg is not None and abs(lg) < 465:          # 1e-140 < exact norm < 1e140
+            return FAIL(f'norm: plain value {pn!r} although the exact norm is about 2^{lg:.1f}')
+        return SKIP('plain norm not (safely) representable')
+    if pn < 1e-140 or pn > 1e140:
         return SKIP('plain norm not (safely) representable')
     z, q = teneva.norm(Y, use_stab=True)
     sn = z * 2.0 ** q
